@@ -37,6 +37,15 @@ func runRung(t *testing.T, campaign string, rung int) {
 				c.Excluded(k)
 				continue
 			}
+			if q.Step > 0 {
+				// the instant queries at the steps are instant forms of the same expression
+				qi := q
+				qi.Step, qi.End = 0, qi.Start
+				if k := knownClass(&d, qi); k != "" {
+					c.Excluded(k + " (instant queries at the steps only)")
+					q.NoInstants = true
+				}
+			}
 			cj.Queries = append(cj.Queries, q)
 			feats = append(feats, g.feats)
 		}
@@ -77,6 +86,30 @@ func runRung(t *testing.T, campaign string, rung int) {
 			c.Nontrivial(cj)
 			c.Sample(map[string]any{"series": len(d.Series), "queries": cj.Queries})
 		}
+		// a discrepancy counts when it shows again after the sample set was loaded into a fresh database (that is what
+		// the replay does); otherwise it is counted and logged (state-dependent behaviour of the storage, not re-executable)
+		var confirmed []Violation
+		for _, v := range vs {
+			if v.Query.Expr == "" {
+				confirmed = append(confirmed, v)
+				continue
+			}
+			one := &CaseJ{Kind: "promql", Data: d, Queries: []QueryJ{v.Query}}
+			var again []Violation
+			for k := 0; k < 2; k++ { // must show on two further fresh loads
+				if again = runCase(one, func(int, string) {}, false); len(again) == 0 {
+					break
+				}
+			}
+			if len(again) > 0 {
+				confirmed = append(confirmed, again[0])
+			} else {
+				c.Class("discrepancy_not_reproduced_after_reload")
+				b, _ := json.Marshal(one)
+				fmt.Fprintf(os.Stderr, "C18 discrepancy not reproduced after reload: %.600s\n case: %s\n", strings.ReplaceAll(v.Msg, "\n", " | "), b)
+			}
+		}
+		vs = confirmed
 		if survey {
 			for _, v := range vs {
 				b, _ := json.Marshal(&CaseJ{Kind: "promql", Data: d, Queries: []QueryJ{v.Query}})
